@@ -55,7 +55,7 @@ def materialise(hist):
         elif k == 'XB': segs.append(['REFX', 'A', 'B'])
         elif k in ('LS', 'LE'): segs.append([k, '2120'])     # bounded-loop markers: ordinary segments for the counts
         elif k == 'CLM': segs.append(['CLM', 'A', '1'])
-        elif k == 'LX': segs.append(['LX', ev[1]])
+        elif k == 'LX': segs.append(['LX', ev[1]] if ev[1] is not None else ['LX'])
         elif k == 'HL': segs.append(['HL', ev[1], ev[2], '20', '1'])
         else:
             open_, gs_n, st_n, seg_n = summary(segs)
@@ -89,7 +89,7 @@ def alphabet_narrow():
 
 def alphabet_lx_narrow():
     """deep, narrow: several groups / sets / claims with service lines (LX numbering across GE/GS, SE/ST, CLM)"""
-    return [('GS', 1), ('GS', 2), ('ST', 1), ('ST', 2), ('CLM',), ('LX', '1'), ('LX', '2'),
+    return [('GS', 1), ('GS', 2), ('ST', 1), ('ST', 2), ('CLM',), ('LX', '1'), ('LX', '2'), ('LX', ''), ('LX', None),     # LX* (blank number) and bare LX
             ('SE', 'ok', 'own'), ('GE', 'ok', 'own'), ('IEA', 'ok', 'own')]
 
 
